@@ -102,3 +102,33 @@ static int hxp_same_bytes(struct jbl *jbl, const uint8_t *before, size_t bsz) {
   if (jbl_as_buf(jbl, &buf, &sz) || !buf) return bsz == 0;
   return sz == bsz && !memcmp(buf, before, sz);
 }
+
+// ---- byte-level ops (bpatch / bseq / bmerge / bmseq): the document goes in and comes out as binn bytes ----
+
+// holder over a private copy of the given bytes (freed by the holder: keep_on_destroy = false, so the buffer is released
+// by binn_free at the moment the entry point swaps the new document in; ASan sees any later use)
+static struct jbl* hxp_holder(const char *hex, iwrc *rcp) {
+  size_t sz; uint8_t *buf = hx_parse(hex, &sz);
+  struct jbl *jbl = 0;
+  *rcp = jbl_from_buf_keep(&jbl, buf, sz, false);
+  if (*rcp) { free(buf); return 0; }
+  return jbl;
+}
+
+// the holder as bytes (documents) or `scalar <wire>` (value structs: root replaced by a scalar / removed)
+static void hxp_dump_holder(struct jbl *jbl) {
+  jbl_type_t t = jbl_type(jbl);
+  if (t == JBV_OBJECT || t == JBV_ARRAY) {
+    void *buf = 0; size_t sz = 0;
+    if (jbl_as_buf(jbl, &buf, &sz) || !buf) fputs("nobuf", stdout);
+    else if (sz > (1U << 20)) fputs("toolarge", stdout);
+    else hx_print(stdout, buf, sz);
+  } else {
+    struct iwpool *pool = iwpool_create(256);
+    struct jbl_node *nd = 0;
+    iwrc rc = jbl_to_node(jbl, &nd, true, pool);
+    fputs("scalar ", stdout);
+    if (rc) printf("to-node-%s", hxp_rc(rc)); else hxp_dump_node(nd);
+    iwpool_destroy(pool);
+  }
+}
